@@ -185,8 +185,8 @@ func TestXCanonicalize(t *testing.T) {
 		root := libRoot(t, segs).Struct()
 		if p := guard(func() { got, err = capnp.Canonicalize(root) }); p != "" {
 			libPanic++
-			if firstPanic == "" {
-				firstPanic = p + "\n on " + v.String()
+			if msg := p + "\n on " + v.String(); firstPanic == "" || len(msg) < len(firstPanic) {
+				firstPanic = msg
 			}
 			continue
 		}
@@ -214,8 +214,8 @@ func TestXCanonicalize(t *testing.T) {
 				t.Errorf("unexplained canonicalization difference:\n%s", show())
 			} else {
 				broken++
-				if firstBroken == "" {
-					firstBroken = show()
+				if msg := show(); firstBroken == "" || len(msg) < len(firstBroken) {
+					firstBroken = msg
 				}
 			}
 		}
@@ -223,13 +223,13 @@ func TestXCanonicalize(t *testing.T) {
 	t.Logf("Canonicalize: %d agree, %d alt zero-sized-struct form, %d library output not a valid encoding of the value, %d library errors, %d library panics",
 		agree, alt, broken, libErr, libPanic)
 	if firstAlt != "" {
-		t.Logf("first alt-form case:\n%s", firstAlt)
+		t.Logf("shortest alt-form case:\n%s", firstAlt)
 	}
 	if firstBroken != "" {
-		t.Logf("first broken library output:\n%s", firstBroken)
+		t.Logf("shortest broken library output:\n%s", firstBroken)
 	}
 	if firstPanic != "" {
-		t.Logf("first library panic: %s", firstPanic)
+		t.Logf("shortest library panic: %s", firstPanic)
 	}
 }
 
@@ -266,10 +266,16 @@ func hasBitList(v *wire.Value) bool {
 	return false
 }
 
+// TestXEqual compares Equal with the library's capnp.Equal on pairs that are
+// equal by construction (clones, zero-padded copies, decoded canonical forms),
+// unequal by construction (one meaningful bit or byte flipped somewhere in the
+// tree) and on independent draws from a small value space.  Disagreements are
+// tallied; those not involving a bit list (where the library has a known
+// defect) fail the test.
 func TestXEqual(t *testing.T) {
 	r := rand.New(rand.NewSource(13))
 	agree, disagree, disagreeBits, libErr, libPanic := 0, 0, 0, 0, 0
-	var first string
+	var shortestBits string
 	check := func(a, b *wire.Value) {
 		pa := libRoot(t, wire.Encode(a, wire.EncOpts{SegWords: 8}))
 		pb := libRoot(t, wire.Encode(b, wire.EncOpts{}))
@@ -278,6 +284,7 @@ func TestXEqual(t *testing.T) {
 		want := wire.Equal(a, b)
 		if p := guard(func() { got, err = capnp.Equal(pa, pb) }); p != "" {
 			libPanic++
+			t.Logf("library Equal panicked: %s\n%v\n%v", p, a, b)
 			return
 		}
 		switch {
@@ -287,17 +294,28 @@ func TestXEqual(t *testing.T) {
 			agree++
 		default:
 			disagree++
+			msg := fmt.Sprintf("model %v, library %v:\n%v\n%v", want, got, a, b)
 			if hasBitList(a) || hasBitList(b) {
 				disagreeBits++
-			} else if first == "" {
-				first = a.String() + "\n" + b.String()
+				if shortestBits == "" || len(msg) < len(shortestBits) {
+					shortestBits = msg
+				}
+			} else {
+				t.Errorf("Equal disagreement without bit lists: %s", msg)
 			}
 		}
 	}
 	for i := 0; i < 1500; i++ {
-		a := wire.RandValue(r.Intn, r.Intn(4), true)
+		// No capabilities here: with an unpopulated capability table the
+		// library resolves every capability pointer to the nil client, so two
+		// capabilities in different messages compare equal whatever their
+		// indices.  The model compares indices; the caller is expected to map
+		// capability identity to indices (see wire.Equal).
+		a := wire.RandValue(r.Intn, r.Intn(5), false)
 		check(a, a.Clone())
-		check(a, wire.RandValue(r.Intn, r.Intn(2), true))
+		check(a, wire.RandValue(r.Intn, r.Intn(2), false))
+		p := wire.PadValue(r, a)
+		check(a, p)
 		// A decoded canonical form is Equal but differently shaped.
 		if c, err := wire.Canonical(a); err == nil {
 			d, err := wire.Decode([][]byte{c}, wire.Limits{})
@@ -306,16 +324,79 @@ func TestXEqual(t *testing.T) {
 			}
 			check(a, d)
 		}
-		// Flip one byte somewhere in the encoding of a data-carrying value.
-		b := a.Clone()
-		if len(b.Data) > 0 {
-			b.Data[r.Intn(len(b.Data))] ^= 1 << r.Intn(8)
-			check(a, b)
+		// Change one meaningful thing somewhere in the tree.
+		m := p.Clone()
+		if wire.Mutate(r, m) {
+			check(a, m)
+			check(m, p)
 		}
+		// Independent draws from a small space (often equal, often via a
+		// primitive list / struct list upgrade).
+		check(wire.TinyValue(r, 2), wire.TinyValue(r, 2))
 	}
 	t.Logf("Equal: %d agree, %d disagree (%d involve bit lists), %d library errors, %d library panics", agree, disagree, disagreeBits, libErr, libPanic)
-	if first != "" {
-		t.Logf("first disagreement without bit lists:\n%s", first)
+	if shortestBits != "" {
+		t.Logf("shortest disagreement involving a bit list: %s", shortestBits)
+	}
+}
+
+// TestXEqualCorners logs (without judging) the library's verdict on the
+// corner cases for which wire.EqOpts offers a choice, next to the model's
+// default verdict, so that a caller can pick the matching options.
+func TestXEqualCorners(t *testing.T) {
+	root := func(p *wire.Value) *wire.Value {
+		return &wire.Value{Kind: wire.KStruct, Ptrs: []*wire.Value{p}}
+	}
+	prim := func(elem, count int, bs ...byte) *wire.Value {
+		if bs == nil {
+			bs = []byte{}
+		}
+		return &wire.Value{Kind: wire.KList, Elem: elem, Count: count, Bytes: bs}
+	}
+	comp := func(dw, pw int, firstBytes ...byte) *wire.Value {
+		l := &wire.Value{Kind: wire.KList, Elem: wire.EComposite, Count: len(firstBytes), CompData: dw, CompPtrs: pw}
+		for _, b := range firstBytes {
+			e := &wire.Value{Kind: wire.KStruct, Data: make([]byte, 8*dw), Ptrs: make([]*wire.Value, pw)}
+			if dw > 0 {
+				e.Data[0] = b
+			}
+			for i := range e.Ptrs {
+				e.Ptrs[i] = wire.NullValue()
+			}
+			l.Items = append(l.Items, e)
+		}
+		return l
+	}
+	cases := []struct {
+		name string
+		a, b *wire.Value
+	}{
+		{"empty byte list vs empty two-byte list", prim(wire.EByte, 0), prim(wire.ETwo, 0)},
+		{"empty byte list vs empty pointer list", prim(wire.EByte, 0), &wire.Value{Kind: wire.KList, Elem: wire.EPtr}},
+		{"empty void list vs empty bit list", prim(wire.EVoid, 0), prim(wire.EBit, 0)},
+		{"empty byte list vs empty composite list", prim(wire.EByte, 0), comp(1, 0)},
+		{"byte list [1] vs two-byte list [1]", prim(wire.EByte, 1, 1), prim(wire.ETwo, 1, 1, 0)},
+		{"byte list [1,2] vs composite [{1},{2}]", prim(wire.EByte, 2, 1, 2), comp(1, 0, 1, 2)},
+		{"void list x2 vs composite of empty structs x2", prim(wire.EVoid, 2), comp(0, 0, 0, 0)},
+		{"bit list [1,0] vs composite [{1},{0}]", prim(wire.EBit, 2, 1), comp(1, 0, 1, 0)},
+		{"bit list [1,0] vs bit list [1,1]", prim(wire.EBit, 2, 1), prim(wire.EBit, 2, 3)},
+		{"bit list [1,0] vs bit list [1,0] with dirty padding", prim(wire.EBit, 2, 1), prim(wire.EBit, 2, 0xfd)},
+		{"null vs empty struct", wire.NullValue(), &wire.Value{Kind: wire.KStruct}},
+	}
+	for _, c := range cases {
+		pa := libRoot(t, wire.Encode(root(c.a), wire.EncOpts{}))
+		pb := libRoot(t, wire.Encode(root(c.b), wire.EncOpts{}))
+		var got bool
+		var err error
+		verdict := ""
+		if p := guard(func() { got, err = capnp.Equal(pa, pb) }); p != "" {
+			verdict = "panic: " + p
+		} else if err != nil {
+			verdict = "error: " + err.Error()
+		} else {
+			verdict = fmt.Sprint(got)
+		}
+		t.Logf("%-55s model %-5v library %s", c.name, wire.Equal(root(c.a), root(c.b)), verdict)
 	}
 }
 
